@@ -298,6 +298,14 @@ for name, inst in [
 ]:
     A("zst", name, ["C07", "C08"], inst, tier="quick", mem_gb=2, timeout_s=600, bounds="ZST element type; every len and every additional in usize (set_len on a ZST vector); one operation")
 
+# C02 zero clause over the whole returned block
+for name, inst, tags, tier in [
+    ("zero_whole_block_down1", "down, MIN_ALIGN 1", ["down"], "quick"),
+    ("zero_whole_block_down8", "down, MIN_ALIGN 8", ["down"], "thorough"),
+    ("zero_whole_block_up1", "up", ["up"], "thorough"),
+]:
+    A("zero", name, ["C02"], inst, tags=tags, tier=tier, mem_gb=6, bounds="new, filler L(<=3,1), B = L(<=8,<=8) with one non-zero byte at a symbolic offset, ONE of allocate_zeroed(L(<=16,<=8)) / grow_zeroed(B -> L(<=16,<=8)); every byte of the RETURNED slice beyond the old contents read at a symbolic index; 1 chunk; unwind 6")
+
 # C18 alignment
 C18B = "new (outer MIN_ALIGN M), filler L(<=5,<=4), aligned::<N> with two allocations L(<=8,<=8) (with budget the first is the concrete L(20,4) => chunk switch while N is in force), allocation after; unwind 6"
 for name, inst, tags, tier in [
@@ -356,7 +364,7 @@ for name, props, inst, tier in [
     ("fail_retained_alloc_up1", ["C07"], "allocate that walks over a retained chunk and is then refused: arena exactly where it was", "quick"),
     ("fail_retained_grow_up1", ["C07"], "grow of the newest block, same", "thorough"),
     ("fail_retained_alloc_down4", ["C07"], "allocate, down, MIN_ALIGN 4", "thorough"),
-    ("fail_retained_mutvec_up1", ["C07", "C15"], "MutBumpVec: failed try_reserve keeps length/contents/buffer; into_boxed_slice afterwards leaves a coherent arena", "quick"),
+    ("fail_retained_mutvec_up1", ["C07", "C15"], "MutBumpVec: failed try_reserve keeps length/contents/buffer; into_boxed_slice afterwards leaves a coherent arena", "thorough"),
     ("fail_retained_mutvecrev_down1", ["C07", "C15"], "MutBumpVecRev, down: same", "thorough"),
 ]:
     A("fail2", name, props, inst, tier=tier, mem_gb=12, timeout_s=2400, bounds=F2B)
@@ -451,6 +459,15 @@ for name, inst, tier in [
       bounds="2 logical threads, 4 pool operations in a FIXED order per harness (hand-off / overlap), <= 2 arenas of one 48-byte chunk, symbolic data; real preemption NOT modelled", unwind=7, timeout_s=2400, mem_gb=10,
       note=AR_STUBS + "; std::sync::Mutex::lock stubbed by must-succeed try_lock")
 
+for name, inst, tier in [
+    ("pool_multi_chunk_reset", "one guard whose arena grew a second chunk (inside a scope => rewound, or by a plain allocation); guard returned; pool.reset() = Bump::reset() on that arena", "quick"),
+    ("pool_multi_chunk_reset_to_start", "same, pool.reset_to_start()", "thorough"),
+    ("pool_multi_chunk_drop", "same, drop(pool)", "thorough"),
+]:
+    H("kani-arena", "pool2::" + name, ["C19"], stubbing=True, cbmc_args=FS, inst=inst, tier=tier,
+      bounds="1 guard, arena of 2 chunks (48 B + 112 B), rewound or in use (symbolic); one pool-wide operation", unwind=7, timeout_s=2400, mem_gb=8,
+      note=AR_STUBS + "; std::sync::Mutex::lock stubbed by must-succeed try_lock")
+
 
 # Harnesses that exist but have not (yet) been run to completion within the machine's budget are parked here: they are
 # NOT part of any tier (a check must never be inconclusive on the unchanged tree); `bin/check --exp` runs them.
@@ -466,6 +483,7 @@ for _n in ["vec_push_grow_up1_newest", "vec_push_grow_down1_newest", "vec_push_g
            "fail_vec_up", "fail_vec_down", "entry_vec_typed_vs_dyn_up1", "entry_vec_typed_vs_dyn_nodealloc_up1", "entry_vec_typed_vs_dyn_nodealloc_down4",
            "entry_vec_typed_vs_dyn_noshrink_down1"]:
     EXPERIMENTAL[_n] = "BumpVec on the real arena: not decided within 30 min / 20 GB"
+EXPERIMENTAL["fail_retained_mutvecrev_down1"] = "stopped at 13 GB and growing after 12 min (the upward MutBumpVec twin needs 14 GB / 16 min)"
 EXPERIMENTAL["step_down1_switch_grow"] = "out of memory (downward grow into a new chunk: overlapping-copy case split on top of the chunk switch)"
 for _n in ["scope_scoped_down1_b1", "scope_checkpoint_down4_b1", "claim_down8_b1", "aligned_16_to_2_down_b1"]:
     EXPERIMENTAL[_n] = "downward chunk switch inside a scope/claim/aligned region: exceeds 16 GB (DESIGN.md 2.5: downward multi-chunk shapes)"
